@@ -525,7 +525,7 @@ func init() {
 			return hasPrefixAny(l, "stored-is-recovered", "stored-entry-labels", "reconstruction-broadcast", "signer-signs-expansion", "honest-step-succeeds")
 		}
 		runSign(cr)
-		runCeremony(cr, []Job{ceremonyJob("c01sign", 2, 2, map[string]string{"sign": "1"}, "airgapped signer after a full ceremony")}, []map[string]int{{}})
+		runCeremony(cr, []Job{ceremonyJob("c01sign", 2, 2, map[string]string{"sign": "1", "noleak": "1"}, "airgapped signer after a full ceremony")}, []map[string]int{{}})
 		cr.explanation = "Hot-node half of C01 at contract level: the real reconstructThresholdSignature/recoverFullSign/broadcastReconstructedSignatures/processSignature/SaveSignatures run from SSA over the kyber contract stubs; for every arrival order of partial signatures and every t-subset, each stored and broadcast signature equals the uninterpreted Sig(poly, proposed payload) with the round's polynomial and threshold - hence is independent of subset and order. Airgapped half (VF_Air_Ceremony sign=1): after a full contract-level ceremony each machine answers a two-message batch with exactly one partial signature per message, made with the share stored for that round (tbls.Sign contract: index || S(share, payload)) and labelled with the message's own id; run natively with real kyber on every run. Curve arithmetic is outside."
 	}}
 	checkDefs["C03"] = &checkDef{level: "other", pkgs: []string{nodePkg, airPkg}, run: func(cr *CheckRun) {
@@ -535,7 +535,7 @@ func init() {
 			return hasPrefixAny(l, "stored-payload-is-proposed", "proposal-entry-payload-is-proposed", "stored-is-recovered", "honest-answer-accepted", "stored-file-is-proposed", "proposal-entry-file-is-proposed", "signer-signs-expansion", "honest-step-succeeds")
 		}
 		runSign(cr)
-		runCeremony(cr, []Job{ceremonyJob("c03sign", 2, 2, map[string]string{"sign": "1"}, "airgapped signer after a full ceremony")}, []map[string]int{{}})
+		runCeremony(cr, []Job{ceremonyJob("c03sign", 2, 2, map[string]string{"sign": "1", "noleak": "1"}, "airgapped signer after a full ceremony")}, []map[string]int{{}})
 		cr.explanation = "Hot-node half of C03: the payload bytes handed to reconstruction (observable through Sig(poly, .)), the SrcPayload stored next to the signature and the payload stored at proposal time are byte-identical to the payload in the proposal on the board, for symbolic payloads. The airgapped signer (VF_Air_Ceremony sign=1, kyber contracts): the bytes handed to tbls.Sign are the proposal's payload bytes of that message id, once per message."
 	}}
 	checkDefs["C07"] = &checkDef{level: "model_checking", pkgs: []string{nodePkg}, run: func(cr *CheckRun) {
